@@ -119,6 +119,57 @@ def Life.reports (l : Life) : List Report :=
 
 def Life.events (l : Life) : List St := run .none l.reports
 
+/-! ## a component shared by two instances, as the service drives it
+
+`X` is the instance whose `Start` is called first (it starts the single inner component and creates the
+host wrapper), `Y` the second one (attached later: the ring is replayed to it).  On shutdown `P` is the
+instance whose `Shutdown` is called first (it performs the real shutdown, whichever instance it is) and
+`Q` the other one (its `Shutdown` is a no-op returning nil).  Around every call the graph reports for the
+instance it is handling (`graph.go StartAll/ShutdownAll`), the shared component reports through the
+wrapper to every attached instance (`sharedcomponent.go`). -/
+structure SharedLife where
+  startedX : Bool        -- `Start` reached the first instance (an earlier component's failure aborts start-up)
+  startedY : Bool        -- … and the second one (implies `startedX`)
+  duringStart : List St  -- reported by the component from inside its (single) `Start`
+  allStarted : Bool
+  running : List St
+  pIsX : Bool            -- the instance shut down first is the one that was started first
+  duringStop : List St
+  failStop : Bool
+deriving Repr
+
+def lastN (n : Nat) (l : List St) : List St := l.drop (l.length - n)
+
+/-- what the ring holds when `Y` attaches -/
+def SharedLife.ringAtAttach (cap : Nat) (l : SharedLife) : List St := lastN cap (St.starting :: l.duringStart)
+
+def SharedLife.final (l : SharedLife) : St := if l.failStop then .permanent else .stopped
+
+/-- reports made through the wrapper during the real shutdown, as received by an attached instance -/
+def SharedLife.wrapperStop (l : SharedLife) (attached : Bool) : List Report :=
+  if l.startedX && attached then
+    [Report.status .stopping] ++ l.duringStop.map Report.status ++ [Report.status l.final]
+  else []
+
+def SharedLife.stopPart (l : SharedLife) (attached isP : Bool) : List Report :=
+  if isP then [Report.status .stopping] ++ l.wrapperStop attached ++ [Report.status l.final]
+  else l.wrapperStop attached ++ [Report.status .stopping, Report.status .stopped]
+
+def SharedLife.reportsX (l : SharedLife) : List Report :=
+  (if l.startedX then
+    [Report.status .starting, Report.status .starting] ++ l.duringStart.map Report.status ++ [Report.okIfStarting] ++
+      (if l.allStarted then l.running.map Report.status else [])
+   else []) ++ l.stopPart l.startedX l.pIsX
+
+def SharedLife.reportsY (cap : Nat) (l : SharedLife) : List Report :=
+  (if l.startedY then
+    [Report.status .starting] ++ (l.ringAtAttach cap).map Report.status ++ [Report.okIfStarting] ++
+      (if l.allStarted then l.running.map Report.status else [])
+   else []) ++ l.stopPart l.startedY (!l.pIsX)
+
+def SharedLife.eventsX (l : SharedLife) : List St := run .none l.reportsX
+def SharedLife.eventsY (cap : Nat) (l : SharedLife) : List St := run .none (l.reportsY cap)
+
 /-! ## shared component host wrapper -/
 
 /-- `hostWrapper`: `sources` are per-instance FSM states (the status reporters of the hosts the
